@@ -1,9 +1,14 @@
-"""X03 - compio-compat: a runtime driven by a foreign event loop (tokio, async-io) loses nothing while the host sleeps.
+"""compio-compat leg of C03 (and, for stranded completions, of C02); `./check X03` runs this leg alone.
+
+A runtime driven by a foreign event loop (tokio, async-io) loses nothing while the host sleeps.
+The leg was built as extension check X03; since the two defects it found were repaired (compio commits ca1210a,
+3888dbb) it decides the "driven by an external event loop" clause of C03: lib/checks/c03.py calls compat_leg().
 
 1. TLC checks CompatLoop (the adapter loop of RuntimeCompat::drive, one action per step, on top of the runtime model
    of Wakeup.tla in external mode) exhaustively: safety in every state, liveness on the fair specification, every
-   control (a realistic breaking change of drive()) must violate, the two recorded deviations must show.
-2. Gen_CompatLoop prints schedules (seeded simulation, plus targeted windows); x03_replay steers the thread inside
+   control (a realistic breaking change of drive(), and each of the two repaired defects of the driver switched back
+   on) must violate.
+2. Gen_CompatLoop prints schedules (seeded simulation, plus the windows of the two repaired defects); x03_replay steers the thread inside
    RuntimeCompat::execute through them on the real crates (real tokio / async-io adapters, both drivers), comparing
    the site, argument and observation of every turn with the model and applying the contract to the real outcome.
 3. x03_stress runs the same programs free, with seeded random timing, also on a multi-thread tokio runtime.
@@ -35,7 +40,7 @@ STATEMENT = (
 TEXT = ("TLC explores every interleaving of waking threads, kernel completions, pool threads, deadlines and the host's "
         "reactor with the steps of the adapter loop on an implementation-shaped model (CompatLoop over Wakeup), checks "
         "the three no-sleep invariants in every state and completion under fairness, and shows that four realistic "
-        "changes of drive() break them. Model-generated schedules are then forced on the real crates: the thread inside "
+        "changes of drive() and the two repaired driver defects break them. Model-generated schedules are then forced on the real crates: the thread inside "
         "RuntimeCompat::execute is parked at hook sites of the driver and at a wrapper around the real adapter, outside "
         "events are injected in the chosen window and confirmed in the kernel (completion queue tail), every turn is "
         "compared with the model, and the outcome must equal the same program's result under Runtime::block_on.")
@@ -44,10 +49,9 @@ NOTE = ("Bounds: <= 2 waking threads, <= 2 tasks, <= 2 reads, 1 timer, 1 blockin
         "edge-triggered readiness cache cleared by clear_ready (tokio) and a level-triggered wait (async-io), both "
         "confirmed by probes and by zero drift. Sequentially consistent atomics. The kernel posts one notifier "
         "completion per eventfd write while the multishot poll is armed and signals the registered eventfd for every "
-        "completion entry. Windows inside a hook-free segment are not steered (the free-running leg samples them). "
-        "Free-running leg: a hang of a program WITH blocking jobs is attributed to the recorded deviation.")
+        "completion entry. Windows inside a hook-free segment are not steered (the free-running leg samples them).")
 TECHNIQUE = "TLA+ model (TLC safety + liveness + controls), steered replay of TLC schedules on real threads, seeded stress"
-DESIGN_REF = "BUILDER_GUIDE/Extension checks (X03)"
+DESIGN_REF = "3/C03 (compio-compat leg), 9/X03"
 
 JVM = ["-XX:+UseSerialGC", "-XX:-UseParallelGC"]
 MC_QUICK = ["q1_iour", "qt_iour", "qj_iour", "qj_poll", "qo_iour"]
@@ -55,13 +59,16 @@ MC_QUICK = ["q1_iour", "qt_iour", "qj_iour", "qj_poll", "qo_iour"]
 MC_THOROUGH = MC_QUICK + ["q1_poll", "qt_poll", "qo_poll", "a_iour", "a_poll", "bl_iour", "bl_poll", "b_iour", "b_poll",
                           "c_iour", "c_poll", "d_iour", "d_poll"]
 # (config, invariant that must be violated)
+# ctl_old*: the repaired defects of the driver switched back on (oldFlush = flush() looks only at the AwakeFlag,
+# oldPollBlocking = io_uring poll returns after poll_blocking, old = both)
 CTL_QUICK = [("ctl_clear_iour", "CtlClearAfterPoll"), ("ctl_ignore_iour", "CtlIgnoreFlush"),
-             ("fnd_dev1_iour", "FindingStrict"), ("fnd_dev2_iour", "RepFlushSeesCompleted")]
+             ("ctl_oldflush_iour", "CtlOldFlush"), ("ctl_oldpollb_iour", "CtlOldPollBlocking")]
 CTL_THOROUGH = CTL_QUICK + [("ctl_ignore_poll", "CtlIgnoreFlush"), ("ctl_notimeout_iour", "CtlNoTimeout"),
                             ("ctl_notimeout_poll", "CtlNoTimeout"), ("ctl_noflush_iour", "CtlNoFlush"),
-                            ("ctl_noflush_poll", "CtlNoFlush"), ("fnd_dev1_poll", "FindingStrict")]
+                            ("ctl_noflush_poll", "CtlNoFlush"), ("ctl_oldflush_poll", "CtlOldFlush"),
+                            ("ctl_old_iour", "CtlOld")]
 # (config, behaviours simulated in the quick tier): one configuration per driver serves every program (the initial
-# state chooses it); "tar" = schedules aimed at the windows of the two recorded deviations
+# state chooses it); "tar" = schedules aimed at the windows of the two repaired defects
 GEN = [("gen_iour", 60), ("gen_poll", 60), ("tar_iour", 30), ("tar_poll", 30)]
 GEN_THOROUGH_ONLY = []
 # every action of the adapter loop must be taken in some exhaustive configuration (XNoFlush exists only in a control)
@@ -146,7 +153,87 @@ def _split(cases, n, tmp, stem):
     return paths
 
 
+WINDOWS = ("blocking-wake-between-set-awake", "poll-blocking-skips-drain", "both-windows")
+
+
+def _targeted(tmp, mult=1):
+    """Schedules of the targeted generators (windows of the two repaired defects), vacuity-checked."""
+    cases, seen = [], set()
+    with cf.ThreadPoolExecutor(2) as ex:
+        gens = [g for g in GEN if g[0].startswith("tar_")]
+        for f in [ex.submit(_gen, ((n, k * mult), 2 + i), vlib.seed()) for i, (n, k) in enumerate(gens)]:
+            name, g, out = f.result()
+            if g.error or g.violated:
+                raise vlib.ToolError("Gen_CompatLoop/%s: %s %s\n%s" % (name, g.error, g.violated, g.out[-2000:]))
+            for o in out:
+                s = json.dumps(o, sort_keys=True)
+                if s not in seen:
+                    seen.add(s)
+                    o["gen"] = name
+                    cases.append(o)
+    _require_windows(cases)
+    return cases
+
+
+def _require_windows(cases):
+    """The normal configuration must never predict a lost completion, and the targeted schedules must pass through the
+    windows of both repaired defects (else the leg would be vacuous with respect to them)."""
+    dead = [c for c in cases if c["dead"]]
+    if dead:
+        raise vlib.ToolError("Gen_CompatLoop: the model of the repaired code ends %d schedules asleep over an undelivered "
+                             "completion (spec and property disagree)" % len(dead))
+    need = {("iour", "dev1"), ("poll", "dev1"), ("iour", "dev2")}
+    have = {(c["driver"], k) for c in cases for k in ("dev1", "dev2") if c[k]}
+    if need - have:
+        raise vlib.ToolError("the targeted generators did not reach the windows of the repaired defects: missing %s" %
+                             sorted(need - have))
+
+
+def stranded_leg(run, tier):
+    """C02's share of the compat leg: only the schedules that pass through a window in which the old driver stranded
+    a completion the OS had finished; a loop that falls asleep there is reported (by the caller's property)."""
+    tmp = vlib.scratch()
+    try:
+        vlib.sany("Gen_CompatLoop")
+        cases = [c for c in _targeted(tmp, 1 if tier == "quick" else 8) if c["dev1"] or c["dev2"]]
+        xlib.cargo_build("hx03", ["x03_replay"])
+        results = _run_replay(_split(cases, 3, tmp, "str"), 900 if tier == "quick" else 3000)
+        keep = []
+        for summ, details in results:
+            probs = []
+            for p in summ["problems"]:
+                stranded = p["type"] == "contract" and p["sig"].get("what") == "hang" and p["sig"].get("dev") in WINDOWS
+                if stranded or p["type"] == "mismatch":
+                    probs.append(p)
+                else:
+                    vlib.log("NOTE: C03 finding in the compat leg (reported by ./check C03): %s" % json.dumps(p["sig"]))
+            keep.append((dict(summ, problems=probs), details))
+        st = _classify(run, keep, "compat leg, stranded completions")
+        if st["cases"] != len(cases):
+            raise vlib.ToolError("x03_replay ran %d of %d cases" % (st["cases"], len(cases)))
+        run.add_traces(st["cases"])
+        run.note("compat_stranded_schedules_replayed", st["cases"])
+        run.note("compat_stranded_drift_schedules", st["drift"])
+    finally:
+        shutil.rmtree(tmp, ignore_errors=True)
+
+
 def run(run, tier, replay):
+    compat_leg(run, tier, replay)
+
+
+def is_compat_replay(path):
+    """Does this replay file belong to the compat leg (as opposed to C03's wake_replay schedules)?"""
+    try:
+        case = json.load(open(path))["replay"]
+    except Exception:
+        return False
+    return isinstance(case, dict) and "prog" in case
+
+
+def compat_leg(run, tier, replay=None, prefix=""):
+    """The whole leg.  `prefix` is put in front of the evidence keys (C03 has keys of the same names)."""
+    note = lambda k, v: run.note(prefix + k, v)
     tmp = vlib.scratch()
     build_err = []
 
@@ -187,7 +274,7 @@ def run(run, tier, replay):
         t_start = time.time()
 
         def lap(what):
-            vlib.log("X03 [%5.1fs] %s" % (time.time() - t_start, what))
+            vlib.log("compat leg [%5.1fs] %s" % (time.time() - t_start, what))
         # ---- 1. model checking (4 TLC processes of one worker each)
         mcs = MC_THOROUGH if thorough else MC_QUICK
         ctls = CTL_THOROUGH if thorough else CTL_QUICK
@@ -217,7 +304,7 @@ def run(run, tier, replay):
                 name, expect, r = f.result()
                 if r.violated != expect:
                     raise vlib.ToolError("control %s should violate %s, got %s / %s" % (name, expect, r.violated, r.error))
-                run.note("control_" + name, "violates %s as expected" % expect)
+                note("control_" + name, "violates %s as expected" % expect)
             # ---- 2. schedules
             cases, seen, per_gen = [], set(), {}
             for f in f_gen:
@@ -237,25 +324,11 @@ def run(run, tier, replay):
         lap("model checking, controls and generators done (%d schedules)" % len(cases))
         if not cases:
             raise vlib.ToolError("no schedules generated")
-        # schedules that end in a recorded deviation cost a watchdog each: keep a few per deviation and driver
-        cap, kept, n_dead = (12 if thorough else 3), {}, 0
-        pruned = []
-        for c in cases:
-            if c["dead"]:
-                n_dead += 1
-                k = (c["driver"], c["dev1"], c["dev2"])
-                kept[k] = kept.get(k, 0) + 1
-                if kept[k] > cap:
-                    continue
-            pruned.append(c)
-        run.note("schedules_ending_in_a_recorded_deviation_generated", n_dead)
-        cases = pruned
-        dead = [c for c in cases if c["dead"]]
-        if not any(c["dev1"] for c in dead) or not any(c["dev2"] for c in dead):
-            raise vlib.ToolError("the targeted generators did not reach both recorded deviations (dev1=%d dev2=%d)" %
-                                 (sum(c["dev1"] for c in dead), sum(c["dev2"] for c in dead)))
-        run.note("schedules_per_generator", per_gen)
-        run.note("schedules_ending_in_a_recorded_deviation_replayed", len(dead))
+        _require_windows(cases)
+        note("schedules_per_generator", per_gen)
+        note("schedules_through_the_window_of_a_repaired_defect",
+             {"blocking-wake-between-set-awake": sum(1 for c in cases if c["dev1"]),
+              "poll-blocking-skips-drain": sum(1 for c in cases if c["dev2"])})
         # ---- 3. steered replay on the real crates
         bt.join()
         if build_err:
@@ -267,11 +340,11 @@ def run(run, tier, replay):
             raise vlib.ToolError("binding lost: %d of %d schedules diverge from the model" % (st["drift"], len(cases)))
         lap("steered replay done")
         run.add_traces(st["cases"])
-        run.note("schedules_replayed", st["cases"])
-        run.note("turns", st["steps"])
-        run.note("drift_schedules", st["drift"])
-        run.note("timing_inconclusive_schedules", st["inconclusive"])
-        run.note("timing_retries", st["retries"])
+        note("schedules_replayed", st["cases"])
+        note("turns", st["steps"])
+        note("drift_schedules", st["drift"])
+        note("timing_inconclusive_schedules", st["inconclusive"])
+        note("timing_retries", st["retries"])
         for c in cases[:: max(1, len(cases) // 3)][:3]:
             run.sample({"driver": c["driver"], "host": c["host"], "prog": c["prog"],
                         "turns": [(s["r"], s["site"], s["arg"]) for s in c["steps"]][:40]}, limit=3)
@@ -283,10 +356,6 @@ def run(run, tier, replay):
                 pseen.add(s)
                 progs.append({"prog": c["prog"]})
         progs += [{"prog": p} for p in EXTRA_PROGS]
-        if not thorough:
-            # a job nobody waits for meets the recorded deviation 2 in about every third free run, each costing a
-            # watchdog: the quick tier leaves those programs to the steered leg
-            progs = [p for p in progs if "none" not in (p["prog"]["jobs"] or {}).values()]
         pp = os.path.join(tmp, "progs.jsonl")
         with open(pp, "w") as f:
             for p in progs:
@@ -301,7 +370,7 @@ def run(run, tier, replay):
         ss = _classify(run, [(summ[0], [l for l in lines if l.get("type") != "summary"])], "stress")
         lap("stress done")
         run.add_traces(ss["cases"])
-        run.note("stress_runs", summ[0].get("runs_per_host_driver"))
+        note("stress_runs", summ[0].get("runs_per_host_driver"))
         # ---- 5. negative controls
         base = next((c for c in cases if c["complete"] and not c["prog"]["timers"] and
                      any(s["site"] == "x.wait.enter" for s in c["steps"])), None)
@@ -328,7 +397,7 @@ def run(run, tier, replay):
         if not any(p["type"] == "contract" and p["sig"].get("what") == "hang" for p in neg[0][0]["problems"]):
             raise vlib.ToolError("negative control 2: a wake-up that never calls the waker was not reported as a hang")
         lap("negative controls done")
-        run.note("negative_controls", "wrong timeout class -> divergence; condition set without wake() -> hang reported")
+        note("negative_controls", "wrong timeout class -> divergence; condition set without wake() -> hang reported")
         run.assumptions += ["sequentially consistent atomics",
                             "the kernel signals the registered eventfd for every completion entry and posts one notifier "
                             "completion per eventfd write while the multishot poll is armed",
